@@ -82,7 +82,7 @@ impl Monitor for C08 {
 		"C08"
 	}
 	fn rule(&self) -> String {
-		"(a) unknown events: small well-formed replays of every regime (and, in thorough, heads of fixtures); for EVERY event boundary after Game Start up to the one before the (first) Game End (including inside message-splitter runs and between a frame's events) 1-3 events with codes drawn from all 246 codes the library does not know and sizes from {1, 2, 7, 516, 4096, 65535} are declared in the payload table and inserted (multiplicity 1-3); additionally a run that inserts an unknown event at every boundary at once. Oracle (differential on the real reader + model): the game read (start, end, metadata, gecko, quirks, every column, validity and item offset) is identical to the game read from the original, via slippi::read and via the incremental API. (b) newer versions: versions {3.17, 3.255, 4.0, 10.0, 255.255} with 1..8 or 100 extra trailing bytes appended independently to each known event kind (and to Game Start / Game End): must parse (also with skip_frames and compute_hash), every known frame field must equal the spec-offset value of the (longer) payload, and start/end must equal those of the same file without the extra bytes. One evaluation = one modified file read. distinct = (regime, boundary kind, size class) and (version, kind with extras) classes.".into()
+		"(a) unknown events: small well-formed replays of every regime (and, in thorough, heads of fixtures); for EVERY event boundary after Game Start up to the one before the (first) Game End (including inside message-splitter runs and between a frame's events) 1-3 events with codes drawn from all 246 codes the library does not know and sizes from {1, 2, 7, 516, 4096, 65535} are declared in the payload table and inserted (multiplicity 1-3); additionally a run that inserts an unknown event at every boundary at once. The modified file is read through the fragmenting source (whole / 1 / 7 / 64 / random<=300-byte reads). Oracle (differential on the real reader + model): the game read (start, end, metadata, gecko, quirks, every column, validity and item offset) is identical to the game read from the original, via slippi::read (default options and, on a subset, with the debug-dump option) and via the incremental API. (b) newer versions: versions {3.17, 3.255, 4.0, 10.0, 255.255} with 1..8 or 100 extra trailing bytes appended independently to each known event kind (and to Game Start / Game End): must parse (also with skip_frames and compute_hash), every known frame field must equal the spec-offset value of the (longer) payload, and start/end must equal those of the same file without the extra bytes. One evaluation = one modified file read. distinct = (regime, boundary kind, size class) and (version, kind with extras) classes.".into()
 	}
 	fn n_cases(&self, ctx: &Ctx) -> usize {
 		// (a) seeds x rounds, (b) version cases
@@ -187,22 +187,53 @@ impl Monitor for C08 {
 				let modified = mutate::assemble(&p, true);
 				out.evals += 1;
 				let what = format!("{}: unknown events {:?} inserted {}", name, chosen, pos.map_or("at every boundary".to_string(), |j| format!("before event #{} ({:#04x})", j, parts.events[j].0)));
-				match common::slp_read(&modified, false, false) {
+				// read through the fragmenting source: skipping an unknown payload must survive short reads
+				let sched = match rng.below(5) {
+					0 => crate::iofault::Policy::Whole,
+					1 => crate::iofault::Policy::Fixed(1),
+					2 => crate::iofault::Policy::Fixed(64),
+					3 => crate::iofault::Policy::Random(300, rng.next()),
+					_ => crate::iofault::Policy::Fixed(7),
+				};
+				match common::slp_read_src(Src::new(std::sync::Arc::new(modified.clone()), sched.clone()), false, false) {
 					Ok(g) => match snap_diff(&base, &snapshot(&g)) {
 						None => out.count("identical_games", 1),
 						Some(d) => out.violate(format!("unknown-event-disturbs;{}", d.split_whitespace().next().unwrap_or("")), format!("{}: parsed game differs in {}", what, d), Some(&modified)),
 					},
 					Err(f) => out.violate(format!("unknown-event-rejected;{}", f.sig()), format!("{}: {}", what, f.text()), Some(&modified)),
 				}
+				// the debug-dump option must skip unknown events just the same
+				if pos.is_none() || rng.chance(1, 12) {
+					out.evals += 1;
+					let dbg = crate::driver::verif_root().join("work").join("C08").join(format!("dbg-{}", std::process::id()));
+					let _ = std::fs::remove_dir_all(&dbg);
+					let opts = peppi::io::slippi::de::Opts { skip_frames: false, compute_hash: false, debug: Some(peppi::io::slippi::de::Debug { dir: dbg.clone() }) };
+					let r = crate::driver::guard(|| peppi::io::slippi::read(std::io::Cursor::new(&modified[..]), Some(&opts)));
+					let _ = std::fs::remove_dir_all(&dbg);
+					match r {
+						Ok(Ok(g)) => {
+							if let Some(d) = snap_diff(&base, &snapshot(&g)) {
+								out.violate("unknown-event-disturbs;debug-option", format!("{}: with the debug option the parsed game differs in {}", what, d), Some(&modified));
+							}
+						}
+						Ok(Err(e)) => out.violate(format!("unknown-event-rejected;debug-option;{}", crate::driver::norm_msg(&e.to_string())), format!("{}: with the debug option the read fails: {}", what, e), Some(&modified)),
+						Err(p) => out.violate("unknown-event-panic;debug-option", format!("{}: panic {}", what, p.msg), Some(&modified)),
+					}
+				}
 				// incremental API on a subset
 				if pos.is_none() || rng.chance(1, 6) {
 					out.evals += 1;
-					let mut src = Src::of(&modified);
+					let mut src = Src::new(std::sync::Arc::new(modified.clone()), sched.clone());
+					let stats = src.stats();
+					let mut accounting: Option<String> = None;
 					let mut skipped = 0u64;
-					match common::incremental(&mut src, |_, step, _| {
+					match common::incremental(&mut src, |st, step, _| {
 						if let Step::Event(c) = step {
 							if !KNOWN.contains(&c) {
 								skipped += 1;
+							}
+							if st.bytes_read() + 15 != stats.bytes() && accounting.is_none() {
+								accounting = Some(format!("after event {:#04x}: bytes_read()={} but {} bytes were delivered (-15)", c, st.bytes_read(), stats.bytes()));
 							}
 						}
 					}) {
@@ -213,6 +244,9 @@ impl Monitor for C08 {
 							let (a, b) = (super::c04::truncate_cols(&mc, n), super::c04::truncate_cols(&base.cols, n));
 							if a.leaves != b.leaves || st.end() != &base.end || st.metadata() != &base.metadata {
 								out.violate("unknown-event-disturbs;incremental", format!("{}: incremental result differs", what), Some(&modified));
+							}
+							if let Some(a) = &accounting {
+								out.violate("unknown-event-byte-accounting", format!("{} (schedule {:?}): {}", what, sched, a), Some(&modified));
 							}
 							out.count("unknown_events_skipped_incrementally", skipped);
 						}
